@@ -37,7 +37,15 @@ pub fn check_case(case: &Case) -> CaseResult {
     let budget = (2 + 8 * eof_steps) * stream.len() + 16 + 8 * eof_steps;
     let mut pumps = 0usize;
     let mut eofs_seen = 0usize;
+    // The chunker is `Clone`: at one generated point it is forked together with the reader's
+    // position; the copy, pumped to the end afterwards, must hand out what the original did from there on.
+    let fork_at = 1 + (stream.len() + case.delivery.script.len()) % 7;
+    let mut fork: Option<(StreamChunker, CyclicReader<'_>, usize)> = None;
+    let mut main_chunks: Vec<(u8, u64, Vec<u8>)> = vec![];
     loop {
+        if pumps == fork_at {
+            fork = Some((chunker.clone(), reader.clone(), main_chunks.len()));
+        }
         block = block_at(pumps);
         pumps += 1;
         if pumps > budget {
@@ -48,6 +56,11 @@ pub fn check_case(case: &Case) -> CaseResult {
         let chunk = chunker
             .pump(which, &mut reader, block)
             .map_err(|e| Fail::new("chunker:io-error", format!("pump failed although the reader only interrupts: {e}")))?;
+        main_chunks.push(match &chunk {
+            Chunk::Sentinel(o) => (0, *o, vec![]),
+            Chunk::Data((o, s)) => (1, *o, s.slice().to_vec()),
+            Chunk::Eof => (2, 0, vec![]),
+        });
         match chunk {
             Chunk::Sentinel(o) => {
                 if o as usize != q + 2 {
@@ -105,6 +118,37 @@ pub fn check_case(case: &Case) -> CaseResult {
                 }
                 break;
             }
+        }
+    }
+    if let Some((mut copy, mut copy_reader, from)) = fork {
+        let mut copy_arena = ByteArena::new();
+        let mut copy_chunks: Vec<(u8, u64, Vec<u8>)> = vec![];
+        let mut n = fork_at;
+        while copy_chunks.len() <= main_chunks.len() - from {
+            let c = copy
+                .pump(&mut copy_arena, &mut copy_reader, block_at(n))
+                .map_err(|e| Fail::new("chunker:io-error", format!("pump on a clone failed: {e}")))?;
+            n += 1;
+            let done = matches!(c, Chunk::Eof) && copy_reader.pos == stream.len();
+            copy_chunks.push(match &c {
+                Chunk::Sentinel(o) => (0, *o, vec![]),
+                Chunk::Data((o, s)) => (1, *o, s.slice().to_vec()),
+                Chunk::Eof => (2, 0, vec![]),
+            });
+            if done {
+                break;
+            }
+        }
+        if copy_chunks[..] != main_chunks[from..] {
+            let at = copy_chunks.iter().zip(main_chunks[from..].iter()).position(|(a, b)| a != b).unwrap_or(copy_chunks.len().min(main_chunks.len() - from));
+            return Err(Fail::new(
+                "chunker:clone-diverges",
+                format!(
+                    "a clone taken before pump #{fork_at} hands out {:?} as its chunk #{at}, the original handed out {:?} (block size {block})",
+                    copy_chunks.get(at).map(|c| (c.0, c.1, show(&c.2))),
+                    main_chunks.get(from + at).map(|c| (c.0, c.1, show(&c.2)))
+                ),
+            ));
         }
     }
     // Eof is sticky.
@@ -184,7 +228,7 @@ fn replay(_ctx: &Ctx, _group: &str, case: &Value) -> CaseResult {
 pub fn def() -> PropDef {
     PropDef {
         id: "C08",
-        rule: "A case is (stream description, delivery): the stream is a sequence of tokens - canonical encodings of small payloads, torn (truncated) and corrupted encodings, garbage, lone FE - each followed by 0..3 FE FD delimiters, optionally truncated as a whole; the delivery is a scripted reader (short reads down to one byte, Interrupted errors, optionally repeating), an io_block_size from {0,1,2,3,4,5,7,8,64,4096,70000,default} and an arena preparation (fresh, pre-sized, 0..4 bytes left in the current chunk; max-size-chunk: the current chunk is a 1 MiB one with 0..37 bytes left). large-records: 1..4 tokens built on payloads of up to 140000 bytes (one in nine of 0.5..1.3 MB: more than a default I/O block and than the arena's largest chunk), block sizes >= 64. In one delivery out of four every pump call gets its own io_block_size (a cyclic schedule of 2..5 sizes from the same set): the block size is an argument of each call, not of the stream. In one delivery out of six successive pump calls alternate between two arenas. transient-eof: the reader now and then returns Ok(0) with bytes left (a file being appended to) and goes on at the next call; the chunker may pass that on as Eof, after which tiling, offsets and contents must still hold (the FE FD straddle rule is suspended across such an Eof, where a held-back FE had to be flushed). pump is called until Eof and twice more. Oracle with running position q: Sentinel(o) has o = q+2 and the stream holds FE FD at q; Data(o, s) is non-empty, equals stream[q..o], contains no FE FD, and a Data ending in FE is never followed by a Data starting with FD; Eof only at the real end and sticky; Sentinel count = number of FE FD occurrences. Non-trivial: the stream has a delimiter and some read delivered exactly the FE of an FE FD pair last. Distinct: hash of the serialised case.",
+        rule: "A case is (stream description, delivery): the stream is a sequence of tokens - canonical encodings of small payloads, torn (truncated) and corrupted encodings, garbage, lone FE - each followed by 0..3 FE FD delimiters, optionally truncated as a whole; the delivery is a scripted reader (short reads down to one byte, Interrupted errors, optionally repeating), an io_block_size from {0,1,2,3,4,5,7,8,64,4096,70000,default} and an arena preparation (fresh, pre-sized, 0..4 bytes left in the current chunk; max-size-chunk: the current chunk is a 1 MiB one with 0..37 bytes left). large-records: 1..4 tokens built on payloads of up to 140000 bytes (one in nine of 0.5..1.3 MB: more than a default I/O block and than the arena's largest chunk), block sizes >= 64. In one delivery out of four every pump call gets its own io_block_size (a cyclic schedule of 2..5 sizes from the same set): the block size is an argument of each call, not of the stream. In one delivery out of six successive pump calls alternate between two arenas. transient-eof: the reader now and then returns Ok(0) with bytes left (a file being appended to) and goes on at the next call; the chunker may pass that on as Eof, after which tiling, offsets and contents must still hold (the FE FD straddle rule is suspended across such an Eof, where a held-back FE had to be flushed). Before one generated pump call the chunker is cloned together with the reader's position; the clone, pumped to the end afterwards, must hand out exactly the chunks the original handed out from that point. pump is called until Eof and twice more. Oracle with running position q: Sentinel(o) has o = q+2 and the stream holds FE FD at q; Data(o, s) is non-empty, equals stream[q..o], contains no FE FD, and a Data ending in FE is never followed by a Data starting with FD; Eof only at the real end and sticky; Sentinel count = number of FE FD occurrences. Non-trivial: the stream has a delimiter and some read delivered exactly the FE of an FE FD pair last. Distinct: hash of the serialised case.",
         assumptions: &["readers only deliver short reads and Interrupted errors (hard errors and premature end of file are C17's subject)"],
         exhaustive_note: None,
         shards: |t: Tier| t.pick(8, 16),
